@@ -184,6 +184,11 @@ def decodeHeader (h : Bytes) (mask : Nat) (out : Decoded) (v : Version) : Option
 
 /-! ### `read_header` -/
 
+/-- Σ `count` over the map (the repaired code checks this sum without 64-bit overflow) -/
+def sparseDataSum : List (Nat × Nat) → Nat
+  | [] => 0
+  | (_, c) :: t => c + sparseDataSum t
+
 inductive ReadResult
   | eof                      -- returns 1
   | err                      -- returns −1
@@ -193,7 +198,7 @@ inductive ReadResult
 def isZeroBlock (h : Bytes) : Bool := h.all (· = 0)
 
 /-- the `for (;;)` loop of `read_header`; `fuel` bounds the number of 512-byte records read -/
-def readHeaderLoop : Nat → Bytes → Decoded → Nat → Bool → ReadResult
+def readHeaderLoop (rejectOversizedMap : Bool) : Nat → Bytes → Decoded → Nat → Bool → ReadResult
   | 0, _, _, _, _ => .err
   | f + 1, s, out, mask, prevZero =>
     if s.length < 512 then .eof
@@ -201,7 +206,7 @@ def readHeaderLoop : Nat → Bytes → Decoded → Nat → Bool → ReadResult
       let h := s.take 512
       let s := s.drop 512
       if isZeroBlock h then
-        if prevZero then .eof else readHeaderLoop f s out mask true
+        if prevZero then .eof else readHeaderLoop rejectOversizedMap f s out mask true
       else
         match checkVersion h with
         | none => .err                                             -- "input is not a ustar tar archive!"
@@ -217,7 +222,7 @@ def readHeaderLoop : Nat → Bytes → Decoded → Nat → Bool → ReadResult
                 if sz < 1 ∨ sz > 65536 then .err
                 else match recordToMemory s sz with
                   | none => .err
-                  | some (p, s') => readHeaderLoop f s' { out with link := some (cstr p) } (setFlag mask PAX_SLINK_TARGET) false
+                  | some (p, s') => readHeaderLoop rejectOversizedMap f s' { out with link := some (cstr p) } (setFlag mask PAX_SLINK_TARGET) false
             else if tf = 76 then                                   -- 'L' GNU long name
               match sizeField with
               | none => .err
@@ -225,11 +230,11 @@ def readHeaderLoop : Nat → Bytes → Decoded → Nat → Bool → ReadResult
                 if sz < 1 ∨ sz > 65536 then .err
                 else match recordToMemory s sz with
                   | none => .err
-                  | some (p, s') => readHeaderLoop f s' { out with name := some (cstr p) } (setFlag mask PAX_NAME) false
+                  | some (p, s') => readHeaderLoop rejectOversizedMap f s' { out with name := some (cstr p) } (setFlag mask PAX_NAME) false
             else if tf = 103 then                                  -- 'g' PAX global: skipped
               match sizeField with
               | none => .err
-              | some sz => readHeaderLoop f (s.drop (sz + padding sz)) out mask false
+              | some sz => readHeaderLoop rejectOversizedMap f (s.drop (sz + padding sz)) out mask false
             else if tf = 120 then                                  -- 'x' PAX
               match sizeField with
               | none => .err
@@ -240,7 +245,7 @@ def readHeaderLoop : Nat → Bytes → Decoded → Nat → Bool → ReadResult
                   | some (p, s') =>
                     match readPaxHeader p {} 0 with                -- `clear_header(out); set_by_pax = 0`
                     | none => .err
-                    | some (out', mask') => readHeaderLoop f s' out' mask' false
+                    | some (out', mask') => readHeaderLoop rejectOversizedMap f s' out' mask' false
             else
               -- 'S': old GNU sparse map and real size, then fall through to decode_header
               let pre : Option (Decoded × Bytes) :=
@@ -266,10 +271,17 @@ def readHeaderLoop : Nat → Bytes → Decoded → Nat → Bool → ReadResult
                   match fin with
                   | none => .err
                   | some (out, s) =>
+                    -- repaired (`fixes/C07-sparse-map-bound.patch`, D22): a map whose data regions do not fit
+                    -- into the record is rejected (`rejectOversizedMap = false` models the unrepaired code)
+                    if rejectOversizedMap ∧ ¬ out.sparse.isEmpty ∧ sparseDataSum out.sparse > out.recordSize then .err
+                    else
                     let out := if out.sparse.isEmpty then { out with actualSize := out.recordSize } else out
                     .ok out s
 
-/-- `read_header` -/
-def readHeader (s : Bytes) : ReadResult := readHeaderLoop (s.length / 512 + 2) s {} 0 false
+/-- `read_header` (repaired: oversized sparse maps are rejected) -/
+def readHeader (s : Bytes) : ReadResult := readHeaderLoop true (s.length / 512 + 2) s {} 0 false
+
+/-- `read_header` of the unrepaired code (D22) -/
+def readHeaderCur (s : Bytes) : ReadResult := readHeaderLoop false (s.length / 512 + 2) s {} 0 false
 
 end Sqfs.Tar
